@@ -230,7 +230,7 @@ def run(ctx):
     lap("openssl_handshakes")
     canary(ctx, _groups(events)[-1])
     lap("canary")
-    rej, stat = validate(ctx, events, 12)
+    rej, stat = validate(ctx, events, 6 if ctx.quick else 12)
     lap("tlc_validation")
     results = {e["sc"]: e for e in events if e["ev"] == "Result"}
 
@@ -245,7 +245,7 @@ def run(ctx):
         if len(again) > max(400, len(scns) // 4):
             raise vlib.Machinery("%d of %d scenarios rejected: something systematic is wrong, e.g. %r" % (len(again), len(scns), rej[:5]))
         ev2 = execute(again, 4, "ossl_again")
-        rej2, _ = validate(ctx, ev2, 6, tag="again", count=False)
+        rej2, _ = validate(ctx, ev2, max(1, min(6, len(again) // 40 + 1)), tag="again", count=False)
         res2 = {e["sc"]: e for e in ev2 if e["ev"] == "Result"}
         for r in rej2:
             if (r[1], r[2]) in first.get(r[0], ()):
@@ -281,6 +281,8 @@ def run(ctx):
                 # the reason text of openssl's first error line ("...:error:0A00006C:SSL routines:extract_keyshares:bad key share:file:line:")
                 f = ((r or {}).get("serr", "") or "").split(" | ")[0].split(":")
                 reason = re.sub(r"[^a-z0-9]+", "-", f[5].lower()).strip("-") if len(f) > 5 else "no-error-text"
+                if "share-outside-supported-groups" in d:
+                    reason = "bad-key-share"   # the class is decided by TLC from the wire hello; openssl's text is only quoted
                 rep.report("C10", "refusal:%s:%s:%s:v%d" % (d, reason, idn, s["ver"]),
                            "%s refuses an offer of %s that OsslCanSelect says it can select (client hello at fault, or the rule): %s; e.g. suite=%d group=%d cert=%s"
                            % (label[s["ossl"]], s["id"], (r or {}).get("serr", "")[-160:], s["suite"], s["group"], s["cert"]), rp)
